@@ -811,6 +811,8 @@ class Interp:
             return VBuiltin(n)
         if n in self.spec_funcs:
             return VBuiltin('spec:' + n)
+        if ('builtin_' + n) in self.spec_funcs:
+            return VBuiltin(n)
         raise Unsupported('unknown name %s in %s' % (n, fr.qual))
 
     def expr_Tuple(self, e, fr):
@@ -1152,6 +1154,12 @@ class Interp:
             if self.spec_mode or isinstance(a, VSeq):
                 return VSeq(z3.Concat(ta, tb), ka)
             return self.st.new_list(z3.Concat(ta, tb), ka)
+        if isinstance(op, ast.Sub) and isinstance(a, VSet) and isinstance(b, VSet):
+            ca, cb = self.st.heap[a.loc], self.st.heap[b.loc]
+            new = z3.Const(sym.fresh_name('setdiff'), ca.member.sort())
+            k = z3.Const(sym.fresh_name('k'), ca.kkind.sort)
+            self.st.assume(z3.ForAll([k], z3.Select(new, k) == z3.And(z3.Select(ca.member, k), z3.Not(z3.Select(cb.member, k)))))
+            return self.st.new_set(SetCell(new, ca.kkind, None))
         if isinstance(op, ast.Add) and isinstance(a, VTuple) and isinstance(b, VTuple):
             return VTuple(a.items + b.items)
         if isinstance(op, ast.Add) and isinstance(a, VElem):
@@ -1531,7 +1539,9 @@ class Interp:
                 self.raise_('IndexError')
             first = name == 'popleft' or (args and z3.is_int_value(z3.simplify(self.num(args[0]))) and z3.simplify(self.num(args[0])).as_long() == 0)
             if args and not first:
-                raise Unsupported('pop(i)')
+                a0 = z3.simplify(self.num(args[0]))
+                if not (z3.is_int_value(a0) and a0.as_long() == -1):
+                    raise Unsupported('pop(i)')
             h = z3.Const(sym.fresh_name('hd'), c.kind.sort)
             tl = z3.Const(sym.fresh_name('tl'), c.term.sort())
             if first:
